@@ -85,11 +85,30 @@ def read(a):
                           if not isinstance(x, (float, np.floating))]}
 
 
+def build_rmv(case):
+    """the repeated measurement of a case (after the earlier object of the same readings, if the case has one)"""
+    import qexpy as q
+    keep = None
+    if case.get("before"):
+        with warnings.catch_warnings():
+            warnings.simplefilter("ignore")
+            keep = sl.build(["repeated", case["xs"], case["before"]["errs"], case.get("container", "list")])
+            for s in case["before"]["sels"]:
+                getattr(keep, SEL_METHOD[s])()
+            _ = (2 * keep).error
+    opts = {"etype": case["etype"]} if case.get("etype") else {}
+    a = sl.build(["repeated", case["xs"], case["errs"], case.get("container", "list"), opts])
+    if case.get("prop_first"):
+        d = fx(case["k"]) * a + fx(case["c"])
+        _ = d.value, d.error, str(d)
+    return a, keep
+
+
 def run_rmv(case):
     """-> (obs0, mc samples of the fresh object, [(sel, warned, obs, (dvalue, derror), mc samples)])"""
     import qexpy as q
     q.set_error_method("derivative")
-    a = sl.build(["repeated", case["xs"], case["errs"], case.get("container", "list")])
+    a, keep = build_rmv(case)                       # noqa: F841
     k, c = fx(case["k"]), fx(case["c"])
     offs = case_offsets(case)
     obs0 = read(a)
@@ -137,7 +156,7 @@ def gen_errs(rng, n):
     if u < 0.28:
         return None
     if u < 0.45:
-        return hx(sl.dyadic(rng, 4, 4, positive=True, nonzero=True))
+        return hx(rng.choice([1.0, sl.dyadic(rng, 4, 4, positive=True, nonzero=True), sl.dyadic(rng, 4, 4, positive=True, nonzero=True)]))
     if u < 0.5:
         return hx(0.0)
     errs = [sl.dyadic(rng, 5, 5, positive=True, nonzero=True) for _ in range(n)]
@@ -148,18 +167,66 @@ def gen_errs(rng, n):
     return [hx(e) for e in errs]
 
 
-def gen_rmv(rng):
+# The property is scale-free: readings and uncertainties of any magnitude (wavelengths in metres, capacitances in
+# farads, counts in the millions).  Scale factors applied to a whole case; powers of two keep dyadic data dyadic.
+SCALES = [2.0 ** -30, 2.0 ** -40, 2.0 ** -50, 1e-9, 1e-12, 5.32e-7, 2.0 ** 30, 1e6]
+POW2_SCALES = [2.0 ** -30, 2.0 ** -40, 2.0 ** -50, 2.0 ** 30]
+
+
+def scale_errs(errs, f):
+    if errs is None:
+        return None
+    if isinstance(errs, list):
+        return [hx(fx(h) * f) for h in errs]
+    return hx(fx(errs) * f)
+
+
+def gen_rmv(rng, pow2=False):
+    """pow2: the uncertainties are scaled by powers of two only (the readings by any factor)"""
     u = rng.random()
+    scale = 1.0
     if u < 0.3:                                     # numpy arrays of a narrow dtype, values at its precision limit
         container = rng.choice(["f32", "f32", "f16", "f16", "i64", "i32", "i16"])
         xs = sl.gen_typed_readings(rng, container)
     else:
         xs = sl.gen_readings(rng)
+        if rng.random() < 0.4:
+            scale = rng.choice(SCALES)
+            xs = [x * scale for x in xs]
+            if len(set(xs)) < 2:
+                xs, scale = sl.gen_readings(rng), 1.0
         container = sl.pick_container(rng, xs, 0.35)
+    # pow2 (correspondence): uncertainties keep short mantissas -- the weights 1/s^2 are then short rationals and the
+    # exact evaluation inside Coq stays fast; the oracle (Fractions) takes every scale
+    errs = scale_errs(gen_errs(rng, len(xs)), 2.0 ** round(math.log2(scale)) if pow2 else scale)
+    v = rng.random()
+    if errs is not None and v < 0.22:               # uncertainties much smaller than the readings ...
+        tiny = rng.choice([2.0 ** -30, 2.0 ** -40] if pow2 else [2.0 ** -30, 1e-9, 2.0 ** -40, 1e-12])
+        if isinstance(errs, list) and v < 0.14:     # ... a single small one among ordinary ones
+            i = rng.randrange(len(errs))
+            errs[i] = hx(fx(errs[i]) * tiny)
+        else:
+            errs = scale_errs(errs, tiny)
     sels = [rng.choice(["std", "eom", "ewm", "perr"]) for _ in range(rng.choice([0, 1, 2, 3, 4, 6, 9]))]
-    return {"xs": [hx(x) for x in xs], "errs": gen_errs(rng, len(xs)), "container": container,
-            "k": hx(sl.dyadic(rng, 4, 2, nonzero=True)), "c": hx(sl.dyadic(rng, 5, 1)), "sels": sels,
-            "offsets": [hx(o) for o in sl.gen_offsets(rng)], "mc_seed": rng.randrange(2 ** 32)}
+    k = rng.choice([1.0, -1.0, 2.0, 10.0]) if rng.random() < 0.2 else sl.dyadic(rng, 4, 2, nonzero=True)
+    c = 0.0 if rng.random() < 0.15 else sl.dyadic(rng, 5, 1) * scale
+    case = {"xs": [hx(x) for x in xs], "errs": errs, "container": container,
+            "k": hx(k), "c": hx(c), "sels": sels,
+            "offsets": [hx(o) for o in sl.gen_offsets(rng)], "mc_seed": rng.randrange(2 ** 32), "scale": hx(scale)}
+    w = rng.random()
+    if errs is not None and w < 0.3:                # the uncertainties as numpy array / ints / numpy scalar / Fraction
+        if isinstance(errs, list):
+            case["etype"] = rng.choice(["ndarray", "int"])
+        else:
+            e = fx(errs)
+            case["etype"] = rng.choice(["float64", "fraction", "int" if e.is_integer() else "float64",
+                                        "float32" if sl.representable(e, "float32") else "float64"])
+    if rng.random() < 0.25:                         # an earlier object with the same readings, other uncertainties, kept alive
+        case["before"] = {"errs": scale_errs(gen_errs(rng, len(xs)), 2.0 ** round(math.log2(scale))),
+                          "sels": [rng.choice(["std", "ewm", "perr"]) for _ in range(rng.randrange(0, 3))]}
+    if rng.random() < 0.3:
+        case["prop_first"] = True                   # the object is used in a calculation before any of its statistics is read
+    return case
 
 
 def gen_pair(rng):
@@ -176,15 +243,34 @@ def gen_pair(rng):
         ys = list(ys)
         ys[i] += rng.choice([1.0, -1.0]) * 2.0 ** rng.choice([-20, -12, -6, -2])     # nearly collinear
         kind, k = "nearly-collinear", None
+    elif u < 0.6 and n >= 3:
+        ys = list(xs)                                # the same readings in another order: equal means and spreads,
+        for _ in range(8):                           # distinct objects, not collinear in general
+            rng.shuffle(ys)
+            if ys != list(xs):
+                break
+        kind = "permuted"
+    elif u < 0.66:
+        m2 = 2 * sl.mean([Fraction(x) for x in xs])
+        ys = [float(m2 - Fraction(x)) for x in xs]   # reflected about the mean: equal means, slope -1
+        if all(Fraction(y) == m2 - Fraction(x) for x, y in zip(xs, ys)):
+            kind, k = "collinear", -1.0
+        else:
+            ys = sl.gen_readings(rng, n=n, kind="small")
     elif u < 0.82:
         ys = sl.gen_readings(rng, n=n, kind=rng.choice(["small", "fine", "offset", "wide"]))
     elif u < 0.92:
         m = rng.choice([j for j in (2, 3, 4, 5, 7) if j != n])
         ys = sl.gen_readings(rng, n=m, kind="small")
         kind = "unequal-length"
-    else:
+    elif u < 0.96:
         ys = [sl.dyadic(rng, 5, 1)] * n
         kind = "zero-spread"
+    else:
+        ys, kind, k = list(xs), "identical", 1.0    # two distinct objects with the same readings
+    if rng.random() < 0.35:                          # either array at another magnitude (exact: powers of two)
+        fx_, fy_ = rng.choice(POW2_SCALES + [1.0]), rng.choice(POW2_SCALES + [1.0])
+        xs, ys = [x * fx_ for x in xs], [y * fy_ for y in ys]
     case = {"xs": [hx(x) for x in xs], "ys": [hx(y) for y in ys], "setter": rng.choice(["set_cov", "set_corr"]),
             "form": rng.choice(["fn", "meth"]), "container": sl.pick_container(rng, xs, 0.35),
             "container_b": sl.pick_container(rng, ys, 0.35), "kind": kind}
@@ -211,6 +297,11 @@ def gen_ctor(rng):
         errs[rng.randrange(n)] = -sl.dyadic(rng, 4, 3, positive=True, nonzero=True)
     else:
         errs = [sl.dyadic(rng, 4, 3, positive=True) for _ in range(n)]
+    if rng.random() < 0.3:
+        f = rng.choice(SCALES)
+        errs = [e * f for e in errs]
+        if rng.random() < 0.5:
+            xs = [x * f for x in xs]
     return {"xs": [hx(x) for x in xs], "errs": [hx(e) for e in errs], "container": sl.pick_container(rng, xs, 0.3)}
 
 
@@ -278,8 +369,8 @@ def correspondence(ctx):
     res = CorrResult()
     rng = ctx.rng
     corpus = load_corpus()
-    rmvs = [c["case"] for c in corpus if c.get("kind") == "rmv"] + [gen_rmv(rng) for _ in range(ctx.n(500, 8000))]
-    pairs = [c["case"] for c in corpus if c.get("kind") == "pair"] + [gen_pair(rng) for _ in range(ctx.n(300, 4000))]
+    rmvs = [c["case"] for c in corpus if c.get("kind") == "rmv"] + [gen_rmv(rng, pow2=True) for _ in range(ctx.n(500, 6000))]
+    pairs = [c["case"] for c in corpus if c.get("kind") == "pair"] + [gen_pair(rng) for _ in range(ctx.n(300, 3000))]
     res.extra["corpus_cases"] = len(corpus)
     shards, index = [], []
     runs = []
@@ -293,6 +384,15 @@ def correspondence(ctx):
                                        ("individual-with-zero" if any(fx(h) == 0 for h in e) else "individual"))
         res.count("rmv:n={}".format(len(case["xs"])))
         res.count("rmv:container:" + case.get("container", "list"))
+        for key in ("etype", "before", "prop_first"):
+            if case.get(key):
+                res.count("rmv:" + key + ((":" + case[key]) if key == "etype" else ""))
+        sc = fx(case.get("scale", hx(1.0)))
+        res.count("rmv:scale:" + ("1" if sc == 1 else "{:.0e}".format(sc)))
+        if e is not None:
+            el = [fx(h) for h in (e if isinstance(e, list) else [e])]
+            if any(0 < x <= 1e-8 for x in el):
+                res.count("rmv:uncertainties:some in (0, 1e-8]" + (" among ordinary ones" if any(x > 1e-6 for x in el) else ""))
         res.count("rmv:uncertainties:" + ek)
         for s, w, _, _, _ in hist:
             res.count("selector:{}:{}".format(s, "warned" if w else "applied"))
@@ -357,7 +457,8 @@ def correspondence(ctx):
     res.rule = ("(a) q.Measurement(readings[, uncertainties]) for dyadic reading arrays of length 2-12 (small / large offset / fine / "
                 "wide / exact-std; list, list of numpy scalars, mixed int / float list, or numpy array of dtype float64 / float32 / float16 / "
                 "int64 / int32 / int16 with values exactly representable in the dtype, biased to its precision limit such as 2^24 for "
-                "float32; no, common, individual, partly zero or very unequal uncertainties): raw_data, "
+                "float32; whole cases scaled by 2^-30 ... 2^-50, 1e-9, 1e-12, 5.32e-7, 2^30, 1e6 and uncertainties scaled down by a "
+                "further 1e-9 ... 1e-12, also a single tiny one among ordinary ones (all comparisons relative); no, common, individual, partly zero or very unequal uncertainties): raw_data, "
                 "mean, std, error_on_mean, error_weighted_mean, propagated_error, value, error of the fresh object and after each "
                 "call of a random use_* history (0-9 calls), the warning flag, value / error of k*a+c computed afterwards by the "
                 "derivative method, and in every state the Monte Carlo samples of k*a+c and a*a retrieved with injected dyadic "
@@ -419,7 +520,8 @@ def mc_oracle(a, k, c, offs, want_value, want_error, where, seed=None):
         if not sl.finite(smp) or abs(fr(smp) - want) > Fraction(1, 10 ** 12) * scale:
             return ("{}: Monte Carlo sample of a*a for the offset {} is {}, but value + offset * uncertainty in use "
                     "({} + {} * {}) gives {}".format(where, o, smp, fx(want_value), o, fx(want_error), float(want)))
-    if seed is not None and fx(want_error) > 0:
+    resolvable = abs(k) * fx(want_error) > 1e-6 * (abs(k * fx(want_value)) + abs(c))      # else offset * error is lost in rounding
+    if seed is not None and fx(want_error) > 0 and resolvable:
         import numpy as np
         state = np.random.get_state()
         np.random.seed(seed)
@@ -445,9 +547,9 @@ def check_rmv_oracle(case):
     n = len(xs)
     m, v = sl.mean(xs), sl.var(xs)
     valid = all(s > 0 for s in ss)
-    matol = Fraction(1, 10 ** 9) * sum((abs(x) for x in xs), Fraction(0)) / n      # mean-like numbers may cancel to ~0
+    matol = Fraction(1, 10 ** 12) * sum((abs(x) for x in xs), Fraction(0)) / n      # mean-like numbers may cancel to ~0
     q.set_error_method("derivative")
-    a = sl.build(["repeated", case["xs"], case["errs"], case.get("container", "list")])
+    a, keep = build_rmv(case)                       # noqa: F841
     k, c = fx(case["k"]), fx(case["c"])
 
     def stats(where):
@@ -484,7 +586,6 @@ def check_rmv_oracle(case):
         return "fresh object: value / error {} / {} are not mean / error on the mean {} / {}".format(
             fx(o["value"]), fx(o["error"]), fx(o["mean"]), fx(o["eom"]))
     want_value, want_error = o["mean"], o["eom"]
-    b = q.Measurement(1.5, 0.25)
     offs = case_offsets(case)
     seed = case.get("mc_seed")
     why = mc_oracle(a, k, c, offs, want_value, want_error, "fresh object", seed if not case["sels"] else None)
@@ -516,9 +617,11 @@ def check_rmv_oracle(case):
                 not sl.close(fr(float(d.error)), abs(Fraction(k)) * fr(want_error), 1e-12):
             return "{}: {}*a+{} = {} +/- {}, expected {} +/- {}".format(
                 where, k, c, float(d.value), float(d.error), k * fx(want_value) + c, abs(k) * fx(want_error))
+        eb = 0.75 * fx(want_error)                  # a second source of comparable size (the check is scale-free)
+        b = q.Measurement(1.5, eb)
         t = a + b
-        if not sl.close(fr(float(t.error)) ** 2, fr(want_error) ** 2 + Fraction(1, 16), 1e-12):
-            return "{}: (a+b).error = {}, expected sqrt({}^2 + 0.25^2)".format(where, float(t.error), fx(want_error))
+        if not sl.close(fr(float(t.error)) ** 2, fr(want_error) ** 2 + fr(eb) ** 2, 1e-12):
+            return "{}: (a+b).error = {}, expected sqrt({}^2 + {}^2)".format(where, float(t.error), fx(want_error), eb)
         why = mc_oracle(a, k, c, offs, want_value, want_error, where, seed if i == len(case["sels"]) - 1 else None)
         if why:
             return why
@@ -584,6 +687,11 @@ def shrink_rmv(case):
     def fails(c):
         return check_rmv_oracle(c) is not None
     cur = dict(case)
+    for key in ("before", "prop_first", "etype"):
+        if key in cur:
+            cand = {k_: v for k_, v in cur.items() if k_ != key}
+            if fails(cand):
+                cur = cand
     sels = shrink_list(cur["sels"], lambda s: fails(dict(cur, sels=s)))
     cur["sels"] = sels
     idx = list(range(len(cur["xs"])))
@@ -594,6 +702,8 @@ def shrink_rmv(case):
         c = dict(cur, xs=[cur["xs"][i] for i in ix])
         if isinstance(cur["errs"], list):
             c["errs"] = [cur["errs"][i] for i in ix]
+        if cur.get("before") and isinstance(cur["before"]["errs"], list):
+            c["before"] = dict(cur["before"], errs=[cur["before"]["errs"][i] for i in ix])
         return c
     keep = shrink_list(idx, lambda ix: sub(ix) is not None and fails(sub(ix)))
     return sub(keep) or cur
